@@ -16,6 +16,7 @@ unsafe impl<const N: usize> Sync for G<N> {}
 
 thread_local! {
     static LAST_PANIC: RefCell<String> = const { RefCell::new(String::new()) };
+    static GUARD_DEPTH: std::cell::Cell<u32> = const { std::cell::Cell::new(0) };
 }
 
 /// Silence the default hook and remember the message of the last panic.
@@ -29,13 +30,20 @@ pub fn install_panic_hook() {
             "<non-string panic>".to_string()
         };
         let loc = info.location().map(|l| format!(" at {}:{}", l.file(), l.line())).unwrap_or_default();
+        if GUARD_DEPTH.with(std::cell::Cell::get) == 0 {
+            // not inside a guarded call of the subject: the harness itself is failing
+            eprintln!("ENGINE PANIC (outside any guarded call): {msg}{loc}");
+        }
         LAST_PANIC.with(|p| *p.borrow_mut() = format!("{msg}{loc}"));
     }));
 }
 
 /// Run `f`, turning a panic into Err(message).
 pub fn guarded<T>(f: impl FnOnce() -> T) -> Result<T, String> {
-    match catch_unwind(AssertUnwindSafe(f)) {
+    GUARD_DEPTH.with(|d| d.set(d.get() + 1));
+    let r = catch_unwind(AssertUnwindSafe(f));
+    GUARD_DEPTH.with(|d| d.set(d.get().saturating_sub(1)));
+    match r {
         Ok(t) => Ok(t),
         Err(_) => Err(LAST_PANIC.with(|p| p.borrow().clone())),
     }
@@ -174,4 +182,17 @@ pub fn replay<const N: usize>(cap: usize, hist: &[Op]) -> Result<Sodg<N>, String
 
 pub fn kids_of<const N: usize>(g: &Sodg<N>, v: usize) -> Vec<(Label, usize)> {
     g.kids(v).map(|(a, t)| (*a, *t)).collect()
+}
+
+/// A copy of `g` that is verified to be exact: its complete snapshot equals the
+/// original's. None if clone() panics or loses something - then the caller
+/// must not continue on the copy (C10 judges clone(); nobody else depends on it).
+pub fn exact_copy<const N: usize>(g: &Sodg<N>) -> Option<Sodg<N>> {
+    let c = guarded(|| g.clone()).ok()?;
+    let (a, b) = (guarded(|| c.verif_snapshot()).ok()?, guarded(|| g.verif_snapshot()).ok()?);
+    if a == b {
+        Some(c)
+    } else {
+        None
+    }
 }
